@@ -146,6 +146,19 @@ func MakeUpdown(r *fw.Rng, p UpdownProfile) UpdownInput {
 			in.Targets[k].ID, in.Targets[k].Desc = "query", "query"
 		}
 	}
+	if r.Chance(0.08) {
+		// names that start with '#' or carry a percent-encoding
+		pre := []string{"#", "#", "%2F", "%41"}[r.Intn(4)]
+		if r.Chance(0.5) {
+			k := r.Intn(nq)
+			in.Queries[k].ID = pre + in.Queries[k].ID
+			in.Queries[k].Desc = in.Queries[k].ID
+		} else {
+			k := r.Intn(nt)
+			in.Targets[k].ID = pre + in.Targets[k].ID
+			in.Targets[k].Desc = in.Targets[k].ID
+		}
+	}
 	Describe(r, in.Queries)
 	Describe(r, in.Targets)
 	return in
